@@ -29,7 +29,7 @@ C1 = {'list': (S.CList, lambda c: typing.List[c]), 'tuplev': (S.CTuple, lambda c
       'mseq': (S.CList, lambda c: cabc.MutableSequence[c])}
 C2 = {'dict': (S.CDict, lambda k, v: typing.Dict[k, v]), 'map': (S.CMap, lambda k, v: cabc.Mapping[k, v]),
       'ddict': (S.CDefaultDict, lambda k, v: typing.DefaultDict[k, v]), 'odict': (S.COrderedDict, lambda k, v: typing.OrderedDict[k, v])}
-LEAF = {'int': (int, 7, 's'), 'str': (str, 's', 7), 'obj': (object, 7, 7), 'any': (typing.Any, 's', 's')}      # (hint, conforming, violating); obj / any cannot be violated
+LEAF = {'int': (int, 7, 's'), 'str': (str, 's', 7), 'optint': (typing.Optional[int], None, 's'), 'obj': (object, 7, 7), 'any': (typing.Any, 's', 's')}      # (hint, conforming, violating); obj / any cannot be violated
 
 
 def hint_of(sh):
@@ -171,6 +171,9 @@ def shapes(tier):
     out += [('dict', 'obj', 'int'), ('map', 'any', 'int'), ('dict', 'str', 'obj'), ('dict', 'any', ('list', 'str')), ('list', ('map', 'obj', 'int')),
             ('odict', 'obj', 'int'), ('map', 'obj', ('dict', 'any', 'int')), ('list', 'obj'), ('list', ('opt', ('dict', 'str', 'int'))),
             ('dict', 'str', ('opt', ('list', 'int')))]
+    # conforming items that are None (falsy / identity-comparable singletons must not trigger a second read)
+    out += [('iterable', 'optint'), ('reversible', 'optint'), ('container', 'optint'), ('list', 'optint'), ('seq', 'optint'), ('list', ('iterable', 'optint')),
+            ('dict', 'str', 'optint'), ('tuplev', 'optint'), ('deque', 'optint'), ('coll', 'optint')]
     # a conforming container beside an offender
     out += [('tuplef', ('list', 'int'), 'str'), ('tuplef', 'str', ('list', 'int')), ('tuplef', ('dict', 'str', 'int'), 'str'),
             ('tuplef', ('seq', 'int'), ('list', 'str')), ('tuplef', ('list', ('list', 'int')), 'str'), ('tuplef', ('coll', 'int'), 'int', ('deque', 'str')),
